@@ -11,7 +11,7 @@ def run(ctx):
     if thorough:
         ctx.check_model(pc.SPEC, 'MCPool.tla', 'MC_q_basic.cfg', WHAT, label='2 workers: fq, sched, destructor', workers=12,
                         required=('TpAddWork', 'TpEnqueue', 'TpStop', 'TpRzJoined', 'FutexWait', 'FutexWake'), timeout=3000, heap='16g')
-        ctx.check_model(pc.SPEC, 'MCPool.tla', 'MC_idle_bulk.cfg', WHAT, label='3 workers: bulk from idle', workers=8, required=('TpAddWork', 'TpEnqueue', 'TpStop', 'TpRzJoined', 'FutexWait', 'FutexWake'))
+        ctx.check_model(pc.SPEC, 'MCPool.tla', 'MC_idle_bulk.cfg', WHAT, label='3 workers: bulk from idle', workers=8, required=('TpBulkLoadThreads', 'TpStop', 'TpRzJoined', 'FutexWait', 'FutexWake'))
     exe = pc.build(ctx, 2)
     rng = random.Random(ctx.seed)
     progs = ['main:new2,fq1,sched2,bulk3.2,del', 'main:new0,fq1,sched2,bulk3.2,del',
